@@ -112,9 +112,7 @@ def n_cases(tier):
 
 def run(tier, replay=None):
     rep = Report(PROP, tier)
-    gen = regenerate(("scopemap",))
-    from extract import scopemap
-    scopes = scopemap.json_table(gen["scopemap"])
+    regenerate(("scopemap", "builtin"))
     rep.audit = audit(PROP, MODULES)
     rep.audit["modules"] = MODULES
     if replay:
@@ -123,7 +121,7 @@ def run(tier, replay=None):
         rng = rng_for(PROP)
         cases = corpus_cases(PROP) + [P.gen_case(rng, conform_bias=0.55) for _ in range(n_cases(tier))]
     impl = [impl_observe(c) for c in cases]
-    ans = run_driver("C01", [dict(c, scopes=scopes, depth="schemaAndData") for c in cases])
+    ans = run_driver("C01", [dict(c, depth="schemaAndData") for c in cases])
     for c, o, a in zip(cases, impl, ans):
         if "error" in a:
             rep.correspondence_break(c, "driver rejected the case: " + a["error"])
